@@ -6,6 +6,7 @@ source AST (impl vs spec).  (X) compiled probe crates: see vlib/probe.py — td_
 of real generated code vs `evalSrc`."""
 from .pipe import *
 from . import probe
+from . import c06
 from .c03 import walk, exhaustive_projects
 
 CHAIN_CORPUS = exhaustive_projects()
@@ -150,6 +151,11 @@ def run(ctx):
     projects = [proj.gen_project(rng, {"fk": False}) for _ in range(ctx.budget(300, 6000))]
     projects += chain_projects(rng, ctx.budget(300, 6000))
     generic_pipeline_check(ctx, [], projects, oracle, "C01")
+    # (2b) keys written as references `$t(..)`: the text is the target's, in the same locale, under the arguments (C06's oracles:
+    # "nothing taken from another key or locale" must hold through references too)
+    fkp = [c06.mk_graph_project(rng) for _ in range(ctx.budget(300, 6000))]
+    generic_pipeline_check(ctx, [], fkp, c06.make_oracle(binp), "C01-references")
+    generic_pipeline_check(ctx, [], c06.walk_family(rng, ctx.budget(150, 3000)), c06.walk_family_oracle, "C01-references-fallback")
     # (3) compiled probe crates
     probe.run_render_probe(ctx, rng, n_crates=ctx.budget(1, 6), flavours=("string", "display", "view"))
     ctx.assumptions += PARSER_ASSUMPTIONS + probe.ASSUMPTIONS
